@@ -7,6 +7,8 @@ import (
 	"go/token"
 	"os"
 	"reflect"
+	"regexp"
+	"sort"
 	"strconv"
 	"strings"
 )
@@ -223,4 +225,78 @@ func sameIgnoringComments(pa, pb string) string {
 		return "1"
 	}
 	return "0"
+}
+
+var rePrologueName = regexp.MustCompile(`^_\d+_\d+$`)
+
+// hygiene inspects every generated closure of the file: the hoisted user expressions
+// (`_<line>_<col> := <expr>`) must be the first statements of the closure, so that nothing the
+// generator declares — whatever its name — is in scope while a user expression is evaluated (the
+// named result `err` is the one exception, recorded as finding F6).  Returns "ok" or
+// "inscope:<names>", the generated identifiers declared before the last hoisted expression.
+func hygiene(gen *ast.File) string {
+	bad := map[string]bool{}
+	ast.Inspect(gen, func(n ast.Node) bool {
+		if !isGeneratedCall(n) {
+			return true
+		}
+		body := n.(*ast.CallExpr).Fun.(*ast.FuncLit).Body
+		last := -1
+		isPro := func(st ast.Stmt) bool {
+			as, ok := st.(*ast.AssignStmt)
+			if !ok || as.Tok != token.DEFINE || len(as.Lhs) != 1 {
+				return false
+			}
+			id, ok := as.Lhs[0].(*ast.Ident)
+			return ok && rePrologueName.MatchString(id.Name)
+		}
+		for i, st := range body.List {
+			if isPro(st) {
+				last = i
+			}
+		}
+		for i := 0; i < last; i++ {
+			st := body.List[i]
+			if isPro(st) {
+				continue
+			}
+			switch x := st.(type) {
+			case *ast.AssignStmt:
+				if x.Tok == token.DEFINE {
+					for _, l := range x.Lhs {
+						if id, ok := l.(*ast.Ident); ok && id.Name != "_" {
+							bad[id.Name] = true
+						}
+					}
+				}
+			case *ast.DeclStmt:
+				if gd, ok := x.Decl.(*ast.GenDecl); ok {
+					for _, sp := range gd.Specs {
+						switch y := sp.(type) {
+						case *ast.ValueSpec:
+							for _, id := range y.Names {
+								bad[id.Name] = true
+							}
+						case *ast.TypeSpec:
+							bad[y.Name.Name] = true
+						}
+					}
+				}
+			default:
+				// any other statement between hoisted expressions is generated code running
+				// before all user expressions were evaluated
+				bad["stmt@"+strconv.Itoa(i)] = true
+			}
+		}
+		return true
+	})
+	if len(bad) == 0 {
+		return "ok"
+	}
+	var names []string
+	for k := range bad {
+		names = append(names, k)
+	}
+	sort.Strings(names)
+	return "inscope:" + strings.Join(names, ",")
 }
